@@ -2,7 +2,9 @@ package harness
 
 import (
 	"encoding/hex"
+	"fmt"
 	"math/big"
+	"os"
 	"strconv"
 	"strings"
 	"testing"
@@ -124,7 +126,11 @@ func driveETHClient(t *testing.T, in, out string, seed int64) {
 		tree := newEthTree(uint64(c.Header.Time.Unix()) - 1000)
 		l.EnsureRelayer([]string{ethName})
 		g := tree.Hdr["g"]
-		cs := &ethtypes.ClientState{Header: *g, ChainId: 4, ContractAddress: common.HexToAddress("0x1234").Bytes(), TrustingPeriod: 1_000_000_000, TimeDelay: 0, BlockDelay: 0}
+		chainID := uint64(4)
+		if v, err := strconv.ParseUint(os.Getenv("VERIF_ETH_CHAINID"), 10, 64); err == nil && v > 0 {
+			chainID = v // not Rinkeby: difficulty and proof-of-work are checked (no valid seal can be produced here)
+		}
+		cs := &ethtypes.ClientState{Header: *g, ChainId: chainID, ContractAddress: common.HexToAddress("0x1234").Bytes(), TrustingPeriod: 1_000_000_000, TimeDelay: 0, BlockDelay: 0}
 		cons := &ethtypes.ConsensusState{Timestamp: g.Time, Height: g.Height, Root: g.Root}
 		prop, err := clienttypes.NewCreateClientProposal("t", "d", ethName, cs, cons)
 		must(err)
@@ -144,7 +150,20 @@ func driveETHClient(t *testing.T, in, out string, seed int64) {
 				msg, err := clienttypes.NewMsgUpdateClient(ethName, &hd, c.Accts[lcRelayer].Acc)
 				must(err)
 				r := c.DeliverMsgs(c.Accts[lcRelayer], msg)
+				if chainID != 4 && strings.Contains(r.Log, "invalid difficulty") {
+					// give the header the difficulty the client expects, so that the seal verification is reached
+					if i := strings.Index(r.Log, "want "); i >= 0 {
+						want := strings.FieldsFunc(r.Log[i+5:], func(c rune) bool { return c < '0' || c > '9' })[0]
+						if d, ok := new(big.Int).SetString(want, 10); ok {
+							hd.Difficulty = d.Bytes()
+							msg, err = clienttypes.NewMsgUpdateClient(ethName, &hd, c.Accts[lcRelayer].Acc)
+							must(err)
+							r = c.DeliverMsgs(c.Accts[lcRelayer], msg)
+						}
+					}
+				}
 				line["res"], line["msg"] = resOf(r), clip(r.Log)
+				line["code"] = fmt.Sprintf("%s/%d", r.Codespace, r.Code)
 				line["sig"] = "Submit/" + x
 			default:
 				t.Fatalf("unknown action %q", act)
